@@ -331,6 +331,26 @@ pub fn c05(cx: &mut Ctx) {
             cx.op("canproceed");
         }
     }
+    // the single-call API used as a decoder: into_receive() straight away, never having written the request
+    // (accepted for a call without body), whatever the request looks like; then a head at every prefix
+    for (ri, req) in ["GET HTTP/1.1 http://a.test/p 0", "POST HTTP/1.1 http://a.test/p 0", "PUT HTTP/1.0 http://a.test/p 0", "GET HTTP/1.1 http://a.test/p 1 content-length 35",
+                      "GET HTTP/1.1 http://a.test/p 2 host 61 host 62", "HEAD HTTP/1.1 http://a.test/p 0"].iter().enumerate() {
+        let mut r = cx.case("unwritten");
+        let mut h = gen_head(&mut r, 2, false);
+        h.status = [200u16, 404, 201, 500, 200, 200][ri];
+        let enc = h.enc();
+        cx.meta(&h.meta());
+        let start = |cx: &mut Ctx| -> bool { cx.rec.new_call("nobody", req) == "ok" && cx.op("cinto") == "state callRecvResponse" };
+        if !start(cx) { continue; }
+        for p in [0usize, 1, 9, enc.len() / 2, enc.len() - 1] {
+            let res = cx.op(&format!("cresp {}", hx(&enc[..p.min(enc.len() - 1)])));
+            if res != "resp 0 none" && !start(cx) { break; }
+        }
+        let mut full = enc.clone();
+        full.extend_from_slice(tail);
+        cx.op(&format!("cresp {}", hx(&full)));
+        cx.op("cfinished");
+    }
 }
 
 const CLS: [&str; 10] = ["", "0", "7", "18446744073709551615", "18446744073709551616", "+5", "-5", "5 ", "abc", "\u{e9}"];
@@ -957,6 +977,27 @@ pub fn c20(cx: &mut Ctx) {
             for p in [renc.len() / 2, renc.len() - 2, renc.len()] {
                 cx.op(&format!("parse-req 128 {}", hx(&renc[..p])));
             }
+        }
+    }
+    // limits other than the four of the main loop: field counts just below, at and above each
+    for lim in [2usize, 3, 5, 8, 16, 17, 20, 32, 64, 100, 127, 129, 256] {
+        for count in [lim.saturating_sub(1), lim, lim + 1, lim + 2] {
+            cx.case("limits");
+            let fields: Vec<Field> = (0..count).map(|k| Field { name: format!("f{}", k).into_bytes(), pre: b" ".to_vec(), value: vec![b'0' + (k % 10) as u8], post: vec![] }).collect();
+            let h = Head { version: 1, status: 200, reason: Some(b"OK".to_vec()), fields: fields.clone() };
+            let enc = h.enc();
+            cx.meta(&h.meta());
+            cx.meta(&format!("limit {}", lim));
+            for p in [enc.len() / 2, enc.len() - 2, enc.len()] {
+                cx.op(&format!("parse-resp {} {}", lim, hx(&enc[..p])));
+                cx.op(&format!("parse-partial {} {}", lim, hx(&enc[..p])));
+            }
+            let mut renc = b"GET / HTTP/1.1\r\n".to_vec();
+            renc.extend_from_slice(&enc_fields(&fields));
+            renc.extend_from_slice(b"\r\n");
+            cx.meta(&format!("reqhead {} {} 1 {}{}", hx(b"GET"), hx(b"/"), fields.len(), meta_fields(&fields)));
+            cx.op(&format!("parse-req {} {}", lim, hx(&renc[..renc.len() - 1])));
+            cx.op(&format!("parse-req {} {}", lim, hx(&renc)));
         }
     }
 }
